@@ -364,16 +364,53 @@ static void run_loop_int64_max(Stats& st, std::set<std::string>& reported) {
   }
 }
 
+
+// The match cap also applies to the unconfirmed candidates of the early fragments of a chained string.  The data are
+// built so that the string does match (the tail follows, at a distance inside the jump, candidates that lie beyond
+// the cap): the scan must either report the match or have delivered the too-many-matches warning for that string -
+// never neither.
+static void run_chained_cap(Stats& st, std::set<std::string>& reported) {
+  J rp = J::obj(); rp.set("engine", "sim_clock"); rp.set("mode", "limits"); rp.set("boundary", "@chained-cap");
+  const char* RULES = "rule chain { strings: $c = { 41 41 41 41 [300-400] 42 43 44 45 } condition: $c }\nrule by1 { strings: $x = \"bystander\" condition: $x }\nrule by2 { condition: filesize > 10 }\n";
+  const char* WITHOUT = "rule by1 { strings: $x = \"bystander\" condition: $x }\nrule by2 { condition: filesize > 10 }\n";
+  YR_RULES* r = compile_simple(RULES); YR_RULES* w = compile_simple(WITHOUT);
+  for (int n : {YR_MAX_STRING_MATCHES - 10, YR_MAX_STRING_MATCHES + 90, YR_MAX_STRING_MATCHES + 500, YR_MAX_STRING_MATCHES * 4}) {
+    std::string b = "a bystander " + std::string((size_t) n + 3, 'A') + std::string(320, 'z') + "BCDE tail";
+    Recorder ref; yr_rules_scan_mem(w, (const uint8_t*) b.data(), b.size(), 0, recorder_callback, &ref, 0);
+    for (int reply : {CALLBACK_CONTINUE, CALLBACK_ABORT}) {
+      Recorder rec; rec.too_many_reply = reply;
+      int rc = yr_rules_scan_mem(r, (const uint8_t*) b.data(), b.size(), 0, recorder_callback, &rec, 0);
+      st.runs++; st.c["boundary.chained-cap"]++; Hash64 h; h.add("cc"); h.addu(n); h.addu(reply); st.hash(h.h);
+      bool matched = rec.text.find("MATCH default:chain ") != std::string::npos && rec.text.find("NOMATCH default:chain") == std::string::npos;
+      bool warned = rec.text.find("TOO_MANY $c") != std::string::npos;
+      std::string at = std::to_string(n) + " candidates of the first fragment (cap " + std::to_string(YR_MAX_STRING_MATCHES) + "), reply " + (reply == CALLBACK_CONTINUE ? "continue" : "abort") + ": ";
+      if (warned) st.c["faults_fired.too_many_matches_chained"]++;
+      if (reply == CALLBACK_ABORT && warned) { if (rc != ERROR_TOO_MANY_MATCHES) emit_c15("limit-warning", std::string("boundary|chained-cap|abort|rc=") + yr_error_name(rc), at + "scan returned " + yr_error_name(rc), rp, reported, st); continue; }
+      if (rc != ERROR_SUCCESS) { emit_c15("limit-wrong-error", std::string("boundary|chained-cap|rc=") + yr_error_name(rc), at + "scan returned " + yr_error_name(rc), rp, reported, st); continue; }
+      if (!matched && !warned) emit_c15("limit-hit-silent", "boundary|chained-cap|match-lost-without-warning", at + "the chained string matches these data, but the scan reports no match and delivered no warning", rp, reported, st);
+      if (n < YR_MAX_STRING_MATCHES && warned) emit_c15("limit-warning", "boundary|chained-cap|warning-below-the-cap", at + "warning although the cap was not reached", rp, reported, st);
+      // the other rules are not affected
+      auto strip = [](const std::string& t) { std::string o; size_t p = 0; while (p < t.size()) { size_t e = t.find('\n', p); std::string l = t.substr(p, e - p + 1); p = e + 1; if (l.find("default:chain") != std::string::npos || l.rfind("TOO_MANY", 0) == 0) continue; o += l; } return o; };
+      if (strip(rec.text) != strip(ref.text)) emit_c15("limit-hit-changes-bystanders", "boundary|chained-cap|bystander-result-differs", at + "other rules' results differ", rp, reported, st);
+    }
+  }
+  yr_rules_destroy(r); yr_rules_destroy(w);
+}
+
 static void run_boundaries(Stats& st, std::set<std::string>& reported, const std::string& only = "") {
   if (only.empty() || only == "@scanner-after-limit") run_scanner_after_limit(st, reported);
   if (only.empty() || only == "@stack-sweep") run_stack_sweep(st, reported);
   if (only.empty() || only == "@slow-warning") run_slow_warning(st, reported);
   if (only.empty() || only == "@regex-jump-sweep") run_regex_jump_sweep(st, reported);
   if (only.empty() || only == "@loop-int64-max") run_loop_int64_max(st, reported);
+  if (only.empty() || only == "@chained-cap") run_chained_cap(st, reported);
   if (!only.empty() && only[0] == '@') return;
   std::vector<Lim> lims;
   lims.push_back({"loop-nesting", YR_MAX_LOOP_NESTING, [](int n, int& e, int& le, int& rc) { std::string c = "true"; for (int i = n; i >= 1; i--) c = "for any v" + std::to_string(i) + " in (0..1) : ( " + c + " )"; e = compile_err("rule x { condition: " + c + " }", le); rc = 0; }, {ERROR_LOOP_NESTING_LIMIT_EXCEEDED}});
   lims.push_back({"strings-per-rule", 8, [](int n, int& e, int& le, int& rc) { yr_set_configuration_uint32(YR_CONFIG_MAX_STRINGS_PER_RULE, 8); std::string s = "rule x { strings:\n"; for (int i = 0; i < n; i++) s += "$s" + std::to_string(i) + " = \"str_" + std::to_string(i) + "_\"\n"; e = compile_err(s + "condition: any of them }", le); yr_set_configuration_uint32(YR_CONFIG_MAX_STRINGS_PER_RULE, 10000); rc = 0; }, {ERROR_TOO_MANY_STRINGS}});
+  // the same limit when the excess consists of strings the condition never mentions (`$_...` may stay unreferenced): they are compiled and scanned like any other
+  lims.push_back({"strings-per-rule-unreferenced", 8, [](int n, int& e, int& le, int& rc) { yr_set_configuration_uint32(YR_CONFIG_MAX_STRINGS_PER_RULE, 8); std::string s = "rule x { strings:\n$a = \"referenced_one\"\n"; for (int i = 1; i < n; i++) s += "$_u" + std::to_string(i) + " = \"unref_" + std::to_string(i) + "_\"\n"; e = compile_err(s + "condition: $a }", le); yr_set_configuration_uint32(YR_CONFIG_MAX_STRINGS_PER_RULE, 10000); rc = 0; }, {ERROR_TOO_MANY_STRINGS}});
+  lims.push_back({"strings-per-rule-mixed", 8, [](int n, int& e, int& le, int& rc) { yr_set_configuration_uint32(YR_CONFIG_MAX_STRINGS_PER_RULE, 8); std::string s = "rule x { strings:\n"; for (int i = 0; i < n; i++) s += std::string(i % 2 ? "$_u" : "$r") + std::to_string(i) + " = \"mixed_" + std::to_string(i) + "_\"\n"; e = compile_err(s + "condition: any of ($r*) }", le); yr_set_configuration_uint32(YR_CONFIG_MAX_STRINGS_PER_RULE, 10000); rc = 0; }, {ERROR_TOO_MANY_STRINGS}});
   lims.push_back({"include-depth", YR_MAX_INCLUDE_DEPTH, [](int n, int& e, int& le, int& rc) { std::map<std::string, std::string> inc; for (int i = 1; i <= n; i++) inc["f" + std::to_string(i)] = i < n ? "include \"f" + std::to_string(i + 1) + "\"\n" : "rule deepest { condition: true }\n"; e = compile_err("include \"f1\"\nrule top { condition: true }", le, nullptr, &inc); rc = 0; }, {ERROR_INCLUDE_DEPTH_EXCEEDED, ERROR_SYNTAX_ERROR}});
   lims.push_back({"identifier-length", 128, [](int n, int& e, int& le, int& rc) { e = compile_err("rule " + std::string(n, 'r') + " { condition: true }", le); rc = 0; }, {ERROR_SYNTAX_ERROR}});
   lims.push_back({"integer-literal", 18, [](int n, int& e, int& le, int& rc) { e = compile_err("rule x { condition: filesize < " + (n <= 18 ? std::string(n, '9') : n == 19 ? std::string("9223372036854775808") : std::string(n, '9')) + " }", le); rc = 0; }, {ERROR_INTEGER_OVERFLOW, ERROR_SYNTAX_ERROR}});
